@@ -29,6 +29,8 @@ def generate(tier, rng):
 def run(tier, seed, rng):
     res = Result('C18', tier, seed)
     proof_stage(res, 'C18')
+    from .. import fixedprog
+    fixedprog.run_fixed(res, 'fx_fn_local', fixedprog.FN_LOCAL, 'the enum, its parse_err_ty / parse_err_fn and its default_with functions all declared inside a function body')
     c = generate(tier, rng)
     out = correspond(res, c, runner.Workspace('c18'), label='modeB')
     # the same with the phf-backed matcher (field-less enums; with and without case-insensitive variants)
